@@ -28,6 +28,7 @@ fn judge_plain(dir: &Path, c: &Case, obs: &mut Obs) -> Judge {
     obs.class_if(failed && !c.sc.clean, "failed-keep");
     obs.class_if(failed && fa.accepted_blocks > 0, "failed-after-some-blocks");
     obs.class_if(c.fsize_limit.is_some(), "write-error");
+    obs.class_if(c.sc.pre_existing, "overwrites-existing-file");
     obs.class_if(failed && fa.peer_error, "cause-peer-error");
     obs.class_if(failed && !fa.peer_error && c.fsize_limit.is_none(), "cause-silence");
     obs.nontrivial = failed;
@@ -97,7 +98,7 @@ fn judge_limited(dir: &Path, c: &Case, obs: &mut Obs) -> Judge {
 }
 
 const KNOWN_CLASSES: &[&str] = &[
-    "failed-clean", "failed-keep", "failed-after-some-blocks", "write-error", "cause-peer-error", "cause-silence", "worker-receives", "completed", "exact-multiple", "single-block", "empty-file", "timeout", "peer-error",
+    "failed-clean", "failed-keep", "overwrites-existing-file", "failed-after-some-blocks", "write-error", "cause-peer-error", "cause-silence", "worker-receives", "completed", "exact-multiple", "single-block", "empty-file", "timeout", "peer-error",
     "duplicate-data-delivered", "out-of-order-data-delivered", "stray-or-undecodable-delivered", "fault-hit",
 ];
 
@@ -111,6 +112,8 @@ pub fn judge(dir: &Path, c: &Case, obs: &mut Obs) -> Judge {
 
 fn mk(ws: u16, blk: usize, len: usize, clean: bool, script: Vec<Sev>, after: After) -> Scenario {
     let mut sc = Scenario::lossless(Role::Receiver, blk, ws, len, 5 + len as u64 * 3 + ws as u64);
+    // every second configuration overwrites an existing file
+    sc.pre_existing = (len + ws as usize + script.len()) % 2 == 1;
     sc.clean = clean;
     sc.script = script;
     sc.after = after;
@@ -137,6 +140,12 @@ fn exhaustive(dir: &Path, wmax: u16) -> Vec<Case> {
                         let mut s = prefix.clone();
                         s.push(Sev::Error(code));
                         out.push(Case { sc: mk(ws, blk, len, clean, s, After::Honest), fsize_limit: None });
+                    }
+                    // long and non-ASCII error texts (they end up in the worker's log line)
+                    for n in [45u16, 63, 129, 600] {
+                        let mut s = prefix.clone();
+                        s.push(Sev::ErrorLong(2, n));
+                        out.push(Case { sc: mk(ws, blk.max(16) * 64, len, clean, s, After::Honest), fsize_limit: None });
                     }
                 }
                 // write error at every offset class: inside the first block, at block edges, inside/at the edge of each window
@@ -169,7 +178,8 @@ pub fn strategy() -> BoxedStrategy<Case> {
         prop_oneof![3 => Just(None), 1 => (0u64..400).prop_map(Some)],
     )
         .prop_map(|(geo, seed, clean, script, after, fates, limit)| {
-            let sc = crate::simgen::scenario(Role::Receiver, geo, seed, false, fates, script, after, (true, true, clean));
+            let mut sc = crate::simgen::scenario(Role::Receiver, geo, seed, false, fates, script, after, (true, true, clean));
+            sc.pre_existing = seed % 3 == 0;
             Case { sc, fsize_limit: limit }
         })
         .boxed()
